@@ -21,7 +21,7 @@ REQUIRED = ('wrapper_calls', 'signatures', 'repeat_calls_served_from_cache', 'ke
             'expire_zero_cases', 'falsy_results', 'decorator_cache', 'decorator_fanout', 'decorator_index',
             'decorator_django', 'decorator_stampede', 'derived_name_cases', 'contended_first_calls',
             'decorator_objects_reused', 'stacked_memoizations', 'repeats_with_keywords_reordered', 'failing_function_cases', 'calls_beside_an_early_recomputation',
-            'decorator_options_passed_by_position')
+            'decorator_options_passed_by_position', 'colliding_keyword_names')
 ASSUMPTIONS = ('two calls are "the same arguments" when positional/keyword binding matches and values are equal under == '
                '(and have equal types when typed); ignored positions/names are removed first',
                'memoize_stampede: the probe runs in ~0 virtual time so early recomputation has probability ~0')
@@ -426,6 +426,31 @@ def extras(dc, sc, res, kind, label):
                 res.violation('%s: falsy result %r: executed %d times, returned %r then %r' % (kind, val, cnt[0], r1, r2),
                               {'label': label})
 
+        # (5a) keyword arguments of the function that happen to be called like parameters of the decorators or of their
+        # inner helpers are arguments like any other
+        for kwname in ('typed', 'ignore', 'name', 'expire', 'tag', 'key', 'base', 'args', 'kwargs', 'func', 'cache',
+                       'default', 'retry', 'timeout', 'version', 'beta'):
+            for typed in (False, True):
+                p = Probe(typed, ())
+                w = deco(p.make('kwname_%s_%s' % (kwname, typed)), typed=typed)
+                calls = [((7,), {kwname: 'x'}), ((7,), {kwname: 'y'}), ((7,), {}), ((), {kwname: 'x'}), ((7,), {kwname: None}),
+                         ((7,), {kwname: True}), ((7,), {kwname: (0,)})]
+                bad = None
+                for args, kwargs in calls + calls:
+                    try:
+                        got = w(*args, **kwargs)
+                    except Exception as exc:       # noqa: BLE001
+                        got = '%s: %s' % (type(exc).__name__, exc)
+                    if got != token(args, kwargs, typed, ()):
+                        bad = (args, kwargs, got)
+                        break
+                res.count('colliding_keyword_names')
+                res.count('evaluations')
+                if bad or p.execs != len(calls):
+                    res.violation('%s: a memoized function called with a keyword argument named %r: %s; %d executions for %d '
+                                  'different calls made twice' % (kind, kwname, 'call %r%r returned %r' % bad if bad else
+                                                                  'results right', p.execs, len(calls)),
+                                  {'label': label, 'typed': typed, 'keyword': kwname})
         # (5b) a function that fails: the caller gets its exception, nothing is remembered for those arguments, and the
         # next call runs the function again - whose result is then remembered as usual
         for exc_type in (ValueError, KeyError, KeyboardInterrupt, MemoizedFunctionFailed):
